@@ -270,7 +270,8 @@ class Goebner:
 
     def _to_sympy_bodyaggregate(self, agg: AST, neg: bool) -> Optional[list[Expr]]:
         assert agg.ast_type == ASTType.BodyAggregate
-        assert agg.left_guard is not None
+        if agg.left_guard is None:
+            return None
         ret = []
         if neg and agg.right_guard:  # don't create a disjunction in case of 2 boundaries negated
             return None
